@@ -10,6 +10,7 @@ Anything the parser does not understand raises ParseError (reported as a broken 
 never silently skipped).
 """
 import ast
+import json
 import os
 import re
 
@@ -409,4 +410,415 @@ class MatPackage:
             uses = re.findall(r"function (?:value = )?%s_([A-Za-z0-9_]+)_\(self(?:, value)?\)\s*\n\s*(?:value = )?self\.([A-Za-z0-9_]+)_serializer\.%s\(" % (verb, verb), text)
             out[role.lower()] = res
             out[role.lower() + "_uses"] = uses
+        return out
+
+
+# ------------------------------------------------------------------------------------------- C++
+
+CPP_PRIM = {"bool": "bool", "int8_t": "int8", "int16_t": "int16", "int32_t": "int32", "int64_t": "int64", "uint8_t": "uint8", "uint16_t": "uint16",
+            "uint32_t": "uint32", "uint64_t": "uint64", "yardl::Size": "size", "float": "float32", "double": "float64", "std::string": "string",
+            "yardl::Date": "date", "yardl::Time": "time", "yardl::DateTime": "datetime"}
+CPP_INT = {"bool", "int8", "int16", "int32", "int64", "uint8", "uint16", "uint32", "uint64", "size"}
+CPP_FLOAT = {"float32", "float64", "complexfloat32", "complexfloat64"}
+
+
+def cpp_tokens(s):
+    out, pos = [], 0
+    for m in re.finditer(r"\s*((?:::)?[A-Za-z_][A-Za-z0-9_]*(?:::[A-Za-z_][A-Za-z0-9_]*)*|\d+|[<>,])", s):
+        if m.start() != pos:
+            raise ParseError(f"C++ expression not understood at {s[pos:pos + 30]!r} in {s[:120]!r}")
+        out.append(m.group(1))
+        pos = m.end()
+    if s[pos:].strip():
+        raise ParseError(f"C++ expression not understood at {s[pos:pos + 30]!r} in {s[:120]!r}")
+    return out
+
+
+def cpp_parse(s):
+    """`a::b<c, d<e>, 3>` -> ("t", "a::b", [("t", "c", []), ("t", "d", [("t", "e", [])]), ("n", 3)])"""
+    toks = cpp_tokens(s)
+    pos = [0]
+
+    def term():
+        if pos[0] >= len(toks):
+            raise ParseError(f"C++ expression ends early: {s[:120]!r}")
+        t = toks[pos[0]]
+        pos[0] += 1
+        if t.isdigit():
+            return ("n", int(t))
+        if t in "<>,":
+            raise ParseError(f"C++ expression: unexpected {t!r} in {s[:120]!r}")
+        args = []
+        if pos[0] < len(toks) and toks[pos[0]] == "<":
+            pos[0] += 1
+            while True:
+                args.append(term())
+                if pos[0] >= len(toks):
+                    raise ParseError(f"C++ expression: unclosed '<' in {s[:120]!r}")
+                sep = toks[pos[0]]
+                pos[0] += 1
+                if sep == ">":
+                    break
+                if sep != ",":
+                    raise ParseError(f"C++ expression: unexpected {sep!r} in {s[:120]!r}")
+        return ("t", t, args)
+    r = term()
+    if pos[0] != len(toks):
+        raise ParseError(f"C++ expression: trailing {toks[pos[0]:][:3]} in {s[:120]!r}")
+    return r
+
+
+class CppPackage:
+    """out_cpp/binary/protocols.cc (the reader / writer functions of every namespace and the step methods of the protocol classes) and every types.h
+    (declared field types, aliases, enum bases: what the overloaded yardl::binary::WriteInteger / WriteFloatingPoint resolve on)"""
+
+    def __init__(self, out_cpp):
+        self.root = out_cpp
+        self.structs, self.aliases, self.enums = {}, {}, {}     # "ns::Name" -> ([tparams], [(field, type ast)]) / ([tparams], type ast) / base prim
+        self.union_helpers, self.union_arities = {}, set()
+        self.funcs = {}       # (ns, verb, Name) -> {"tparams": [(T, FnName)], "ptype": ast, "stmts": [(expr ast, target)]}
+        self.methods = {}     # (ns, Proto, role) -> [(verb, Step, param type text, body lines)]
+        self.field_orders = []
+        self.memo = {}
+        for dirpath, _, files in os.walk(out_cpp):
+            for fn in files:
+                if fn == "types.h":
+                    self._types(os.path.join(dirpath, fn))
+        path = os.path.join(out_cpp, "binary", "protocols.cc")
+        if not os.path.exists(path):
+            raise ParseError(f"no generated file {path}")
+        self._protocols(open(path, encoding="utf-8").read().splitlines())
+
+    # --- types.h
+    def _types(self, path):
+        lines = open(path, encoding="utf-8").read().splitlines()
+        ns, tparams, i = None, [], 0
+        while i < len(lines):
+            ln = lines[i]
+            m = re.fullmatch(r"namespace ([A-Za-z0-9_:]+) \{", ln)
+            if m:
+                ns = m.group(1)
+            m = re.fullmatch(r"template <(.*)>", ln)
+            if m:
+                tparams = [p.strip().split()[-1] for p in m.group(1).split(",")]
+                i += 1
+                continue
+            m = re.fullmatch(r"enum class ([A-Za-z0-9_]+)(?: : ([A-Za-z0-9_:]+))? \{", ln)
+            if m:
+                self.enums[f"{ns}::{m.group(1)}"] = (m.group(2) or "int32_t", False)
+            m = re.fullmatch(r"struct ([A-Za-z0-9_]+) : yardl::BaseFlags<([A-Za-z0-9_:]+), ([A-Za-z0-9_]+)> \{", ln)
+            if m:
+                if m.group(3) != m.group(1):
+                    raise ParseError(f"{path}: flags {ln.strip()}")
+                self.enums[f"{ns}::{m.group(1)}"] = (m.group(2), True)
+            m = re.fullmatch(r"using ([A-Za-z0-9_]+) = (.*);", ln)
+            if m and ns is not None:
+                self.aliases[f"{ns}::{m.group(1)}"] = (tparams, m.group(2))
+            m = re.fullmatch(r"struct ([A-Za-z0-9_]+) \{", ln)
+            if m and ns is not None:
+                name, fields = m.group(1), []
+                i += 1
+                while i < len(lines) and lines[i].strip() and not lines[i].startswith("}"):
+                    f = re.fullmatch(r"  (.+?) ([A-Za-z_][A-Za-z0-9_]*)(\{.*\}| = .*)?;", lines[i])
+                    if f is None:
+                        break
+                    fields.append((f.group(2), f.group(1)))
+                    i += 1
+                self.structs[f"{ns}::{name}"] = (tparams, fields)
+            tparams = []
+            i += 1
+
+    # --- binary/protocols.cc
+    def _protocols(self, lines):
+        ns, tline, i = None, None, 0
+        head = re.compile(r"(?:\[\[maybe_unused\]\] )?void (Write|Read)([A-Za-z0-9_]+)\(yardl::binary::Coded(?:Out|In)putStream& stream, (.+?)(?: const)?& value\) \{")
+        meth = re.compile(r"(?:void|bool) ([A-Za-z0-9_]+)(Writer|Reader)::(Write|Read|End)([A-Za-z0-9_]+)Impl\((.*)\) \{")
+        while i < len(lines):
+            ln = lines[i]
+            m = re.fullmatch(r"namespace ([A-Za-z0-9_:]+)::binary \{", ln)
+            if m:
+                ns = m.group(1)
+            if ln.startswith("template<") and ln.endswith(">"):
+                tline = ln
+                i += 1
+                continue
+            m = re.fullmatch(r"void (Write|Read)Union\(yardl::binary::Coded(?:Out|In)putStream& stream, std::variant<(.*)>(?: const)?& value\) \{", ln)
+            if m:
+                body, i = self._body(lines, i + 1)
+                self.union_helpers[(m.group(1), len(m.group(2).split(",")))] = ((tline or "") + "|" + m.group(2), [x.strip() for x in body if x.strip()])
+                tline = None
+                continue
+            m = head.fullmatch(ln)
+            if m and ns is not None and ns != "yardl":
+                body, i = self._body(lines, i + 1)
+                tps = []
+                if tline:
+                    parts = [p.strip() for p in self._split_top(tline[len("template<"):-1])]
+                    if len(parts) % 2:
+                        raise ParseError(f"template parameters of {m.group(1)}{m.group(2)}: {tline}")
+                    for a, b in zip(parts[0::2], parts[1::2]):
+                        ta = re.fullmatch(r"typename ([A-Za-z0-9_]+)", a)
+                        fb = re.fullmatch(r"yardl::binary::(?:Writer|Reader)<([A-Za-z0-9_]+)> ([A-Za-z0-9_]+)", b)
+                        if not ta or not fb or fb.group(1) != ta.group(1):
+                            raise ParseError(f"template parameters of {m.group(1)}{m.group(2)}: {tline}")
+                        tps.append((ta.group(1), fb.group(2)))
+                self.funcs[(ns, m.group(1), m.group(2))] = {"tparams": tps, "ptype": m.group(3), "body": body}
+                tline = None
+                continue
+            m = meth.fullmatch(ln)
+            if m and ns is not None:
+                body, i = self._body(lines, i + 1)
+                self.methods.setdefault((ns, m.group(1), m.group(2)), []).append((m.group(3), m.group(4), m.group(5), body))
+                tline = None
+                continue
+            tline = None
+            i += 1
+
+    @staticmethod
+    def _body(lines, i):
+        body = []
+        while i < len(lines) and lines[i] != "}":
+            body.append(lines[i])
+            i += 1
+        return body, i + 1
+
+    @staticmethod
+    def _split_top(s):
+        out, depth, cur = [], 0, ""
+        for ch in s:
+            if ch == "<":
+                depth += 1
+            if ch == ">":
+                depth -= 1
+            if ch == "," and depth == 0:
+                out.append(cur)
+                cur = ""
+            else:
+                cur += ch
+        if cur.strip():
+            out.append(cur)
+        return out
+
+    # --- types
+    def subst(self, t, tenv):
+        if t[0] == "n":
+            return t
+        if not t[2] and t[1] in tenv:
+            return tenv[t[1]]
+        return ("t", t[1], [self.subst(a, tenv) for a in t[2]])
+
+    def prim_of(self, t, depth=0):
+        """the primitive a C++ type names (through non-generic `using` aliases)"""
+        if t[0] != "t" or depth > 20:
+            return None
+        name = t[1].lstrip(":")
+        if not t[2] and name in CPP_PRIM:
+            return CPP_PRIM[name]
+        if name == "std::complex" and len(t[2]) == 1 and t[2][0] in (("t", "float", []), ("t", "double", [])):
+            return "complexfloat32" if t[2][0][1] == "float" else "complexfloat64"
+        if name in self.aliases:
+            tps, text = self.aliases[name]
+            if len(tps) != len(t[2]):
+                return None
+            return self.prim_of(self.subst(cpp_parse(text), dict(zip(tps, t[2]))), depth + 1)
+        return None
+
+    # --- expressions
+    def conv(self, f, ty, tenv, fenv):
+        """the serializer expression of function `f` applied to a value of C++ type `ty` (None when the call does not spell it)"""
+        if f[0] != "t":
+            raise ParseError(f"not a function: {f}")
+        name, a = f[1], f[2]
+        if not a and name in fenv:
+            return fenv[name]
+        ty = self.subst(ty, tenv) if ty is not None else None
+        rec = lambda t_, f_: self.conv(f_, t_, tenv, fenv)
+        m = re.fullmatch(r"(?:::)?yardl::binary::(?:Write|Read)([A-Za-z0-9]+)", name)
+        if m:
+            c = m.group(1)
+            if c in ("Integer", "FloatingPoint", "String", "Date", "Time", "DateTime") and not a:
+                p = self.prim_of(ty) if ty is not None else None
+                fixed = {"String": "string", "Date": "date", "Time": "time", "DateTime": "datetime"}
+                if c in fixed:
+                    if p is not None and p != fixed[c]:
+                        raise ParseError(f"{name} applied to a value of type {ty}")
+                    return ["prim", fixed[c]]
+                if p is None or p not in (CPP_INT if c == "Integer" else CPP_FLOAT):
+                    raise ParseError(f"{name} applied to a value of type {ty}")
+                return ["prim", p]
+            if c == "Monostate" and not a:
+                return ["none"]
+            if c in ("Enum", "Flags") and len(a) == 1 and a[0][0] == "t":
+                e = self.subst(a[0], tenv)[1].lstrip(":")
+                if e not in self.enums or self.enums[e][1] != (c == "Flags"):
+                    raise ParseError(f"{name}<{e}>: no such {'flags' if c == 'Flags' else 'enum'} in types.h")
+                base = self.prim_of(cpp_parse(self.enums[e][0]))       # the underlying type, possibly through aliases
+                if base not in CPP_INT:
+                    raise ParseError(f"{name}<{e}>: underlying type {self.enums[e][0]}")
+                return ["enum", ["prim", base], False]
+            if c == "Optional" and len(a) == 2:
+                return ["opt", rec(a[0], a[1])]
+            if c == "Vector" and len(a) == 2:
+                return ["vec", rec(a[0], a[1])]
+            if c == "Array" and len(a) == 3 and a[2][0] == "n":
+                return ["fvec", rec(a[0], a[1]), a[2][1]]
+            if c == "NDArray" and len(a) == 3 and a[2][0] == "n":
+                return ["nd", rec(a[0], a[1]), a[2][1]]
+            if c == "FixedNDArray" and len(a) >= 3 and all(x[0] == "n" for x in a[2:]):
+                return ["fnd", rec(a[0], a[1]), [x[1] for x in a[2:]]]
+            if c == "DynamicNDArray" and len(a) == 2:
+                return ["dyn", rec(a[0], a[1])]
+            if c == "Map" and len(a) == 4:
+                return ["map", rec(a[0], a[2]), rec(a[1], a[3])]
+            raise ParseError(f"unknown runtime function {name}/{len(a)}")
+        if re.fullmatch(r"(?:::)?(?:Write|Read)Union", name):
+            if len(a) < 4 or len(a) % 2:
+                raise ParseError(f"{name} with {len(a)} template arguments")
+            self.union_arities.add(len(a) // 2)
+            return ["union", [rec(t_, f_) for t_, f_ in zip(a[0::2], a[1::2])], False, []]
+        m = re.fullmatch(r"(?:::)?([A-Za-z0-9_:]+)::binary::(Write|Read)([A-Za-z0-9_]+)", name)
+        if m:
+            if len(a) % 2:
+                raise ParseError(f"{name} with {len(a)} template arguments")
+            targs = [(self.subst(t_, tenv), rec(t_, f_)) for t_, f_ in zip(a[0::2], a[1::2])]
+            return self.named(m.group(1), m.group(2), m.group(3), targs)
+        raise ParseError(f"unknown function {name}")
+
+    union_arities = set()
+    union_helpers = {}
+
+    def check_union_helper(self, verb, n):
+        """the file-local helper for unions of `n` cases: the case index as an integer, then case i with the i-th function"""
+        got = self.union_helpers.get((verb, n))
+        if got is None:
+            raise ParseError(f"no file-local {verb}Union for {n} cases")
+        role = "Writer" if verb == "Write" else "Reader"
+        sig = "template<" + ", ".join(f"typename T{i}, yardl::binary::{role}<T{i}> {verb}T{i}" for i in range(n)) + ">|" + ", ".join(f"T{i}" for i in range(n))
+        if verb == "Write":
+            body = ["yardl::binary::WriteInteger(stream, value.index());", "switch (value.index()) {"]
+            for i in range(n):
+                body += [f"case {i}: {{", f"T{i} const& v = std::get<{i}>(value);", f"WriteT{i}(stream, v);", "break;", "}"]
+        else:
+            body = ["size_t index;", "yardl::binary::ReadInteger(stream, index);", "switch (index) {"]
+            for i in range(n):
+                body += [f"case {i}: {{", f"T{i} v;", f"ReadT{i}(stream, v);", "value = std::move(v);", "break;", "}"]
+        body += ['default: throw std::runtime_error("Invalid union index.");', "}"]
+        if got != (sig, body):
+            raise ParseError(f"the file-local {verb}Union for {n} cases is not of the reviewed form (index, then case i by function i): {got[1][:6]}")
+
+    def named(self, ns, verb, name, targs):
+        key = (ns, verb, name, json.dumps(targs))
+        if key in self.memo:
+            if self.memo[key] is None:
+                raise ParseError(f"{ns}::binary::{verb}{name} calls itself")
+            return self.memo[key]
+        fn = self.funcs.get((ns, verb, name))
+        if fn is None:
+            raise ParseError(f"no function {ns}::binary::{verb}{name}")
+        if len(fn["tparams"]) != len(targs):
+            raise ParseError(f"{ns}::binary::{verb}{name} takes {len(fn['tparams'])} type arguments, given {len(targs)}")
+        self.memo[key] = None
+        tenv = {tp: t for (tp, _), (t, _) in zip(fn["tparams"], targs)}
+        fenv = {fp: se for (_, fp), (_, se) in zip(fn["tparams"], targs)}
+        ptype = cpp_parse(fn["ptype"])
+        body = list(fn["body"])
+        # the raw-memory shortcut, taken when the C++ type has the layout of its encoding
+        if len(body) >= 4 and re.fullmatch(r"  if constexpr \(yardl::binary::IsTriviallySerializable<.*>::value\) \{", body[0]) and \
+                re.fullmatch(r"    yardl::binary::(Write|Read)TriviallySerializable\(stream, value\);", body[1]) and body[2] == "    return;" and body[3] == "  }":
+            body = body[4:]
+        stmts = []
+        for ln in body:
+            if not ln.strip():
+                continue
+            s = re.fullmatch(r"  (.+)\(stream, (value(?:\.[A-Za-z_][A-Za-z0-9_]*)?)\);", ln)
+            if s is None:
+                raise ParseError(f"{ns}::binary::{verb}{name}: statement not understood: {ln.strip()[:160]}")
+            stmts.append((cpp_parse(s.group(1)), s.group(2)))
+        if len(stmts) == 1 and stmts[0][1] == "value":
+            res = self.conv(stmts[0][0], ptype, tenv, fenv)
+        else:
+            sname = ptype[1].lstrip(":")
+            if sname not in self.structs:
+                raise ParseError(f"{ns}::binary::{verb}{name}: parameter type {sname} is not a struct of types.h")
+            stps, sfields = self.structs[sname]
+            if len(stps) != len(ptype[2]):
+                raise ParseError(f"{sname}: {len(stps)} template parameters, used with {len(ptype[2])}")
+            senv = dict(zip(stps, [self.subst(x, tenv) for x in ptype[2]]))
+            used = [t.split(".", 1)[1] if "." in t else None for _, t in stmts]
+            self.field_orders.append((f"{ns}::binary::{verb}{name}", used, [f for f, _ in sfields]))
+            ftypes = dict(sfields)
+            fields = []
+            for e, target in stmts:
+                fname = target.split(".", 1)[1] if "." in target else None
+                if fname is None or fname not in ftypes:
+                    raise ParseError(f"{ns}::binary::{verb}{name}: {target} is not a field of {sname}")
+                fields.append(self.conv(e, self.subst(cpp_parse(ftypes[fname]), senv), tenv, fenv))
+            res = ["rec", fields]
+        self.memo[key] = res
+        return res
+
+    # --- protocol steps
+    def steps(self, ns, proto_pascal):
+        out = {}
+        self.field_orders = []
+        self.memo = {}
+        for role in ("Writer", "Reader"):
+            ms = self.methods.get((ns, proto_pascal, role))
+            if ms is None:
+                raise ParseError(f"no step methods of {ns}::binary::{proto_pascal}{role}")
+            verb = "Write" if role == "Writer" else "Read"
+            order, by = [], {}
+            for v, step, params, body in ms:
+                if step not in by:
+                    by[step] = []
+                    if v == verb:
+                        order.append(step)
+                by[step].append((v, params, body))
+            res = []
+            for step in order:
+                ov = [(p, b) for v, p, b in by[step] if v == verb]
+                ended = any(v == "End" for v, _, _ in by[step])
+                if role == "Writer":
+                    stream = ended
+                    if stream and (len(ov) != 2 or [b.strip() for v, p, b_ in by[step] if v == "End" for b in b_] != ["yardl::binary::WriteInteger(stream_, 0U);"]):
+                        raise ParseError(f"{proto_pascal}{role}: stream step {step}: overloads / end marker not understood")
+                else:
+                    stream = len(ov) == 2
+                if not stream:
+                    if len(ov) != 1:
+                        raise ParseError(f"{proto_pascal}{role}: step {step} has {len(ov)} overloads")
+                    p, b = ov[0]
+                    pm = re.fullmatch(r"(.+?)(?: const)?& value", p)
+                    st = [x.strip() for x in b if x.strip()]
+                    s = re.fullmatch(r"(.+)\(stream_, value\);", st[0]) if len(st) == 1 else None
+                    if pm is None or s is None:
+                        raise ParseError(f"{proto_pascal}{role}: step {step}: body not understood: {st[:3]}")
+                    res.append((step, self.conv(cpp_parse(s.group(1)), cpp_parse(pm.group(1)), {}, {}), False))
+                    continue
+                exprs = []
+                for (p, b), (single, batch) in zip(ov, [(True, False), (False, True)]):
+                    st = [x.strip() for x in b if x.strip()]
+                    if role == "Writer" and single:
+                        pat = [r"yardl::binary::WriteBlock<(.+)>\(stream_, value\);"]
+                    elif role == "Writer":
+                        pat = [r"if \(!values\.empty\(\)\) \{", r"yardl::binary::WriteVector<(.+)>\(stream_, values\);", r"\}"]
+                    elif single:
+                        pat = [r"bool read_block_successful = false;", r"read_block_successful = yardl::binary::ReadBlock<(.+)>\(stream_, current_block_remaining_, value\);",
+                               r"return read_block_successful;"]
+                    else:
+                        pat = [r"yardl::binary::ReadBlocksIntoVector<(.+)>\(stream_, current_block_remaining_, values\);", r"return current_block_remaining_ != 0;"]
+                    ms_ = [re.fullmatch(x, y) for x, y in zip(pat, st)] if len(pat) == len(st) else [None]
+                    if not all(ms_):
+                        raise ParseError(f"{proto_pascal}{role}: stream step {step}: body not understood: {st[:4]}")
+                    inner = next(m_.group(1) for m_ in ms_ if m_.groups())
+                    parts = self._split_top(inner)
+                    if len(parts) != 2:
+                        raise ParseError(f"{proto_pascal}{role}: stream step {step}: {inner[:120]}")
+                    exprs.append(self.conv(cpp_parse(parts[1]), cpp_parse(parts[0]), {}, {}))
+                if exprs[0] != exprs[1]:
+                    raise ParseError(f"{proto_pascal}{role}: stream step {step}: the single-item and the batch overload use different serializers")
+                res.append((step, exprs[0], True))
+            out[role.lower()] = res
+            for n in sorted(self.union_arities):
+                self.check_union_helper(verb, n)
         return out
